@@ -13,11 +13,12 @@ int main(void)
   while ((len = getline(&g_line, &g_cap, stdin)) > 0) {
     toks_t t = tokenize(g_line);
     int done = 0;
-    if (t.n == 0) { printf("R skip\n"); continue; }
+    if (t.n == 0) { printf("R skip\nE\n"); continue; }
     if (!done) done = dispatch_c19(&t);
     if (!done) done = dispatch_c20(&t);
     if (!done) done = dispatch_c13(&t);
     if (!done) printf("R skip\n");
+    printf("E\n");      /* end of this op: everything before a crash belongs to the op in flight */
     fflush(stdout);
   }
   return 0;
